@@ -383,27 +383,32 @@ def dims_time(ctx: Ctx) -> None:
     okc = [ast.unparse(x) for x in tb.value.args] == [f"{evp}.beat", f"{evp}.tag"] and ast.unparse(tb.value.func.value) == f"{asn}.last"
     ctx.expect("R-FWD", a, "the next event's time is measured from the last state to (event.beat, event.tag)", okc, "", f"{src(tb.value)}", node=tb.node)
     tname = [name for name, bs in loc.b.items() if tb in bs][0]
-    times = [b for name, bs in loc.b.items() for b in bs if b.kind == "assign" and name == "time"]
+    cons0 = record_constructions(ctx, a, f"{ENG}.TimingState")
+    c0 = one(cons0, f"TimingState construction in {a.fq}")
+    fm0 = field_map(ctx, f"{ENG}.TimingState", c0)
+    em0 = field_map(ctx, f"{ENG}.TimedEvent", fm0["event"]) if isinstance(fm0.get("event"), ast.Call) else {}
+    N = {"bpm": getattr(fm0.get("bpm"), "id", "bpm"), "warp": getattr(fm0.get("warp"), "id", "warp"), "time": getattr(em0.get("time"), "id", "time")}
+    times = [b for name, bs in loc.b.items() for b in bs if b.kind == "assign" and name == N["time"]]
     okt = len(times) == 1 and ast.unparse(times[0].value) in (f"SongTime({asn}.last.event.time + {tname})", f"SongTime({tname} + {asn}.last.event.time)")
     ctx.expect("R-DIM", a, "event time = last state's time + elapsed seconds", okt, "", f"{src(times[0].value) if times else ''}", node=a.node)
     # bpm / warp updates
     for name, want_tag, want_val in (("bpm", "BPM", f"{evp}.value"), ("warp", "WARP", "True"), ("warp", "WARP_END", "False")):
         hits = []
-        for b in loc.b.get(name, []):
+        for b in loc.b.get(N[name], []):
             if b.kind == "assign" and ast.unparse(b.value) == want_val:
                 fs = facts(ctx, a, b.node)
                 tg = [s for a_, pol in fs if pol for s in [_membership(ctx, a, a_, f"{evp}.tag")] if s]
                 hits.append(tg == [{want_tag}])
         ctx.expect("R-TABLE", a, f"{name} becomes {want_val} exactly on a {want_tag} event", hits == [True], str(hits), f"assignments of {name} = {want_val}: guards {hits}", node=a.node)
-    carry = {n_: [ast.unparse(b.value) for b in loc.b.get(n_, []) if b.kind == "assign"] for n_ in ("bpm", "warp")}
+    carry = {n_: [ast.unparse(b.value) for b in loc.b.get(N[n_], []) if b.kind == "assign"] for n_ in ("bpm", "warp")}
     ctx.expect("R-TABLE", a, "bpm and warp flag carry over from the last state otherwise", f"{asn}.last.bpm" in carry["bpm"] and f"{asn}.last.warp" in carry["warp"]
                and len(carry["bpm"]) == 2 and len(carry["warp"]) == 3, str(carry), str(carry), node=a.node)
     cons = record_constructions(ctx, a, f"{ENG}.TimingState")
     c = one(cons, f"TimingState construction in {a.fq}")
     fm = field_map(ctx, f"{ENG}.TimingState", c)
     em = field_map(ctx, f"{ENG}.TimedEvent", fm["event"]) if isinstance(fm.get("event"), ast.Call) else {}
-    oks = {k: ast.unparse(v) for k, v in em.items()} == {"beat": f"{evp}.beat", "value": f"{evp}.value", "tag": f"{evp}.tag", "time": "time"} \
-        and ast.unparse(fm.get("bpm")) == "bpm" and ast.unparse(fm.get("warp")) == "warp"
+    oks = {k: ast.unparse(v) for k, v in em.items()} == {"beat": f"{evp}.beat", "value": f"{evp}.value", "tag": f"{evp}.tag", "time": N["time"]} \
+        and ast.unparse(fm.get("bpm")) == N["bpm"] and ast.unparse(fm.get("warp")) == N["warp"]
     ctx.expect("R-REBUILD", a, "the new state records the event's beat, value, tag, its time, and the updated bpm / warp flag", oks, "", f"{src(c, 200)}", node=c)
     ap = [c_ for c_ in method_calls(a, "append") if c_.args and c_.args[0] is c]
     cfg = ctx.cfg(a)
@@ -468,10 +473,11 @@ def dims_beat(ctx: Ctx) -> None:
         v = rr[0].value
         if isinstance(v, ast.Call) and isinstance(v.func, ast.Name) and v.func.id == "cast":
             v = v.args[1]
-        v = inline(v, ba, stop=["prior_state"])
-        if isinstance(v, ast.BinOp) and isinstance(v.op, ast.Add):
-            parts = sorted([ast.unparse(v.left), ast.unparse(v.right)])
-            okr = any(re.fullmatch(r"(\w+)\.beats_until\(time\)", x) for x in parts) and any(x.endswith(".event.beat") for x in parts) and parts[0].split(".")[0] == parts[1].split(".")[0]
+        v = inline(v, ba)
+        from ..pat import match as _m
+        tparam = ba.param_names()[1]
+        m1 = _m("$a.event.beat + $a.beats_until($t)", v) or _m("$a.beats_until($t) + $a.event.beat", v)
+        okr = m1 is not None and ast.unparse(m1["t"]) == tparam and isinstance(m1["a"], ast.Subscript) and self_attr(m1["a"].value, ba.param_names()[0]) == "_state_machine"
     ctx.expect("R-DIM", ba, "beat_at = prior state's beat + its beats_until(time)", okr, "", f"{src(rr[0].value) if rr else ''}", node=ba.node)
 
 
@@ -702,8 +708,11 @@ def timing_source_rule(ctx: Ctx) -> None:
         ok_chart = all(pol for a, pol in fs) and len(fs) == 4 and f"isinstance({sf}, SSCSimfile)" in pos and f"isinstance({ch}, SSCChart)" in pos
         ver = [a for a in pos if "version" in a]
         anyp = [a for a in pos if a.startswith("any(")]
+        from ..pat import match as _m2
+        anyn = [a for a, pol in facts(ctx, f, outcomes[ch][1]) if pol and ast.unparse(a).startswith("any(")]
+        m2 = _m2("any(($p.__get__($c) for $p in CHART_TIMING_PROPERTIES))", anyn[0]) if len(anyn) == 1 else None
         ok_chart = ok_chart and len(ver) == 1 and ver[0] == f"float({sf}.version or '0') >= SSC_VERSION_SPLIT_TIMING" and len(anyp) == 1 \
-            and anyp[0] == f"any((timing_prop.__get__({ch}) for timing_prop in CHART_TIMING_PROPERTIES))"
+            and m2 is not None and ast.unparse(m2["c"]) == ch and isinstance(m2["p"], ast.Name)
     ctx.expect("R-TABLE", f, "the chart is the source exactly under: SSC simfile and SSC chart and version >= 0.7 and any non-empty chart timing property", ok_chart,
                str(outcomes.get(ch, ("-",))[0]), f"chart returned under {outcomes.get(ch, ('-',))[0]}", node=f.node)
     ok_sim = sf in outcomes and len(rets) == 2
@@ -765,10 +774,14 @@ def displaybpm_rule(ctx: Ctx) -> None:
     okt = len(tries) == 1 and len(tries[0].handlers) == 1 and ast.unparse(tries[0].handlers[0].type) == "InvalidOperation" and not tries[0].finalbody \
         and all(isinstance(s, ast.Pass) for s in tries[0].handlers[0].body)
     ctx.expect("R-EXC", f, "only a malformed number (InvalidOperation) falls back to the BPMS", okt, "", "", node=f.node)
-    ok_bpms = any(k.startswith("StaticDisplayBPM(bpms[0])") and ("len(bpms) == 1", True) in fs for k, fs in table.items()) and \
-        any(k == "RangeDisplayBPM(min=min(bpms), max=max(bpms))" and ("len(bpms) == 1", False) in fs for k, fs in table.items())
+    from ..pat import match as _m3
+    bl = [n for n, bs in loc.b.items() for b in bs if b.kind == "assign" and _m3("[$e.value for $e in BeatValues.from_str($x['BPMS'])]", b.value) is not None]
+    BL = bl[0] if len(bl) == 1 else "bpms"
+    ok_bpms = any(k.startswith(f"StaticDisplayBPM({BL}[0])") and (f"len({BL}) == 1", True) in fs for k, fs in table.items()) and \
+        any(k == f"RangeDisplayBPM(min=min({BL}), max=max({BL}))" and (f"len({BL}) == 1", False) in fs for k, fs in table.items())
     ctx.expect("R-TABLE", f, "from BPMS: one value -> static, otherwise range(min, max)", ok_bpms, "", str(table), node=f.node)
-    bp = [b for b in loc.b.get("bpms", []) if b.kind == "assign"]
-    okb = len(bp) == 1 and ast.unparse(bp[0].value) == f"[e.value for e in BeatValues.from_str({x}['BPMS'])]"
+    bp = [b for b in loc.b.get(BL, []) if b.kind == "assign"]
+    mb = _m3("[$e.value for $e in BeatValues.from_str($x['BPMS'])]", bp[0].value) if len(bp) == 1 else None
+    okb = mb is not None and ast.unparse(mb["x"]) == x
     ctx.expect("R-TABLE", f, "the BPM values are those of the chosen source's BPMS", okb, "", f"{src(bp[0].value) if bp else ''}", node=f.node)
     ctx.expect("R-TABLE", f, "five outcomes", len(rets) == 5, "", f"{len(rets)} returns", node=f.node)
